@@ -383,6 +383,8 @@ def run(chk):
     if not njobs:
         chk.broken('IMB_MGR.jobs[] not found')
         return
+    from . import c06 as _c06
+    _c06.run_t11(chk, P)
     for tu in P.variant_tus():
         ha = handler_assignments(P, tu)
         roles = {k: v[0] for k, v in ha.items() if k in ROLE_FIELDS}
